@@ -39,6 +39,8 @@ pub struct MathLog {
     pub n_esh: u64,
     pub n_logp: u64,
     pub n_turn: u64,
+    /// U-turn criteria evaluated on two identical end positions (exactly zero, deterministic)
+    pub n_zero_span_turn: u64,
     /// smallest |turn product| seen relative to the magnitude of the operands
     pub min_abs_turn: f64,
 }
@@ -182,7 +184,13 @@ where
         let s1 = d * xv.iter().map(|v| v * v).sum::<f64>().sqrt();
         let s2 = d * yv.iter().map(|v| v * v).sum::<f64>().sqrt();
         let rel = (r.0.abs() / s1.max(1e-300)).min(r.1.abs() / s2.max(1e-300));
-        if rel < self.log.min_abs_turn {
+        // a criterion evaluated on two bit-identical end positions is exactly zero whatever the rounding: it is a
+        // deterministic decision (not turning), not a numerically degenerate one, and must not hide the run from
+        // the mirrored-trajectory oracle (the unchanged code never compares a state with itself)
+        let zero_span = d == 0.0 && r.0 == 0.0 && r.1 == 0.0;
+        if zero_span {
+            self.log.n_zero_span_turn += 1;
+        } else if rel < self.log.min_abs_turn {
             self.log.min_abs_turn = rel;
         }
         if self.log.record {
